@@ -113,8 +113,8 @@ def array_cases(rng, n_random):
         d = rng.choice(datas)
         combos.append((d, rng.choice(variants(len(d))), rng.choice(variants(len(d)))))
     for d, e, r in combos:
-        for form in ("array", "xy", "repeated"):
-            if form != "array" and r is not None:
+        for form in ("array", "xy", "repeated", "wrap", "xy-wrap", "wrap-derived"):
+            if form not in ("array", "wrap", "wrap-derived") and r is not None:
                 continue
             if form == "repeated" and len(d) < 2:
                 continue
@@ -133,13 +133,43 @@ def array_cases(rng, n_random):
                     elif form == "xy":
                         ds = q().XYDataSet(list(d), list(d), xerr=e, yerr=None)
                         errs = [float(x) for x in ds.xerr]
+                    elif form in ("wrap", "xy-wrap", "wrap-derived"):
+                        # arrays / data sets built from EXISTING quantities: a rejected request must leave them unchanged
+                        if form == "wrap-derived":
+                            base = q().Measurement(1.0, 0.25)
+                            elems = [base * x + 0.5 for x in d]
+                        else:
+                            elems = [q().Measurement(x, 0.75) for x in d]
+                        before_elems = [observe(x) for x in elems]
+                        if form == "xy-wrap":
+                            existing = q().MeasurementArray(elems)
+                            ds = q().XYDataSet(existing, list(d), xerr=e)
+                            errs = [float(x) for x in ds.xerr]
+                        else:
+                            kw = {}
+                            if e is not None:
+                                kw["error"] = e
+                            if r is not None:
+                                kw["relative_error"] = r
+                            arr = q().MeasurementArray(elems, **kw)
+                            errs = [float(x) for x in arr.errors]
                     else:
                         m = q().Measurement(list(d), e)
                         errs = [float(x.error) for x in m._raw_data]
                 o = "Accepted"
             except Exception as ex:  # noqa
                 o, errs = outcome(ex), []
-            cases.append({"form": form, "data": d, "error": pv_from_py(e), "rel": pv_from_py(r), "out": o, "errs": errs})
+            case = {"form": form, "data": d, "error": pv_from_py(e), "rel": pv_from_py(r), "out": o, "errs": errs}
+            if form in ("wrap", "xy-wrap", "wrap-derived"):
+                if o != "Accepted":
+                    after_elems = [observe(x) for x in elems]
+                    changed = [(i, b, a) for i, (b, a) in enumerate(zip(before_elems, after_elems)) if a != b]
+                    if changed:
+                        case["changed"] = "element {} was {} and is {} after the rejected request".format(*changed[0])
+                elif e is None and r is None:
+                    errs = None      # existing quantities keep their own uncertainties: nothing to compare with the helper
+            case["errs"] = errs
+            cases.append(case)
     return cases
 
 
@@ -321,8 +351,12 @@ def correspondence(ctx):
         body = coq_list(["({}, {}, {}, {})".format(qlit(c["v"]), pv_to_coq(c["e"]), c["out"], qlit(c["err"])) for c in chunk])
         shards.append(HEADER + "Definition cases := {}.\nEval vm_compute in (bad_indices check_construct cases).\n".format(body))
         index.append(("ctor", chunk))
-    for k in range(0, len(ac), 150):
-        chunk = ac[k:k + 150]
+    # (relative uncertainties of arrays built from existing quantities are not supported by the library: abs() of the
+    #  object array raises TypeError before anything is changed; those cases are checked by the oracle only)
+    ac_model = [c for c in ac if c["errs"] is not None and c["form"] != "wrap-derived"
+                and not (c["form"] == "wrap" and c["rel"] != ["none"])]
+    for k in range(0, len(ac_model), 150):
+        chunk = ac_model[k:k + 150]
         body = coq_list(["({}, {}, {}, {}, {})".format(
             coq_list([qlit(x) for x in c["data"]]), pv_to_coq(c["error"]), pv_to_coq(c["rel"]), c["out"],
             coq_list([qlit(x) for x in c["errs"]])) for c in chunk])
@@ -389,7 +423,10 @@ def oracle_constructors(rng, n):
             out.append(("ctor", c, "{} with ({}, {}) has uncertainty {}".format(
                 "Measurement" if c["form"] == "ctor" else "a (value, error) operand", c["v"], c["e"], c["err"])))
     for c in array_cases(rng, n):
-        if c["out"] == "Accepted" and any(not ok_number(x) for x in c["errs"]):
+        if c.get("changed"):
+            out.append(("array", c, "{} constructor with existing quantities {} error {} relative_error {} was rejected ({}) but {}".format(
+                c["form"], c["data"], c["error"], c["rel"], c["out"], c["changed"])))
+        if c["out"] == "Accepted" and c["errs"] is not None and any(not ok_number(x) for x in c["errs"]):
             out.append(("array", c, "{} constructor with data {} error {} relative_error {} has uncertainties {}".format(
                 c["form"], c["data"], c["error"], c["rel"], c["errs"])))
     return out
